@@ -72,7 +72,7 @@ struct Root { PDU* p; bool known, bytes_known, moved_from; std::vector<int> type
 struct PkSlot { Packet* pk; bool known, bytes_known; std::vector<int> types; Bytes bytes; PkSlot() : pk(0), known(false), bytes_known(false) {} };
 
 static std::vector<int> types_of(const PDU* p) { std::vector<int> t; for (; p; p = p->inner_pdu()) t.push_back((int)p->pdu_type()); return t; }
-static bool try_serialize(PDU* p, Bytes& out) { out.clear(); if (p->size() == 0) return true; try { PDU::serialization_type s = p->serialize(); out.assign(s.begin(), s.end()); return true; } catch (exception_base&) { return false; } }
+static bool try_serialize(PDU* p, Bytes& out) { out.clear(); if (p->size() == 0) return true; try { PDU::serialization_type s = p->serialize(); out.assign(s.begin(), s.end()); return true; } catch (std::exception&) { return false; } /* incl. value_too_large, which is not a libtins exception_base */ }
 
 struct OwnEngine : Engine {
     const char* name() const { return "own"; }
